@@ -91,6 +91,8 @@ def run(tier, replay=None):
             return "%s statement binding (%s) where (%s) %s declared" % (x["where"], ", ".join(x["given"]), ", ".join(x["decl"]), "are" if len(x["decl"]) != 1 else "is")
         if x["kind"] == "lit":
             return "literal %s for %s" % (json.dumps(mro.untag(x["v"]) if '"file"' not in json.dumps(x["v"]) else x["v"])[:80], wtcorpus.ts(x["t"]))
+        if x["kind"] == "ref-through-pipeline":
+            return "ref %s -> (pipeline output declared %s) -> %s" % (wtcorpus.ts(x["s"]), wtcorpus.ts(x["via"]), wtcorpus.ts(x["t"]))
         return "%s %s%s -> %s" % (x["kind"], wtcorpus.ts(x["s"]), "".join("." + q for q in x["path"]), wtcorpus.ts(x["t"]))
 
     def add(c, kind, what):
@@ -132,6 +134,36 @@ def run(tier, replay=None):
                                      [mro.pipeline("TOP", "", "string r", [mro.call("P"), mro.call("C", binds={"x": expr})],
                                                    {"r": mro.ref("C", "r")})], "TOP", {}, filetypes=("txt",)))
             progs[-1]["row"] = x
+    # the same through a sub-pipeline whose declared output type lies between the two: what the
+    # consumer is handed is the producer's value converted to the declared type first
+    refs_ = [x for x in accepted_rows if x["kind"] == "ref" and not x.get("path")]
+    by_src = {}
+    for x in refs_:
+        by_src.setdefault(json.dumps(x["s"], sort_keys=True), []).append(x)
+    chains = []
+    for x1 in refs_:
+        if x1["s"] == x1["t"] or "S" not in json.dumps(x1["t"]):
+            continue
+        for x2 in by_src.get(json.dumps(x1["t"], sort_keys=True), []):
+            if x2["t"] != x1["t"]:
+                chains.append((x1, x2))
+    rng.shuffle(chains)
+    # first those that go from a struct to a typed map: what the struct was narrowed from shows
+    chains.sort(key=lambda c: 0 if (c[1]["t"].get("m") and not c[0]["t"].get("m")) else 1)
+    counts["chains_through_pipeline_outputs"] = len(chains)
+    for i, (x1, x2) in enumerate(chains[:(60 if tier == "quick" else 2000)]):
+        vs = values.get(json.dumps(x1["s"], sort_keys=True), [])
+        if not vs:
+            continue
+        v = vs[i % len(vs)]
+        q = mro.program("wtsub%d" % i, invcorpus.STRUCTS,
+                        [mro.stage("P", "", [("v", x1["s"])], {"v": {"k": "const", "v": v}}),
+                         mro.stage("C", [("x", x2["t"])], "string r", {"r": mro.INST})],
+                        [mro.pipeline("SUB", "", [("ns", x1["t"])], [mro.call("P")], {"ns": mro.ref("P", "v")}),
+                         mro.pipeline("TOP", "", "string r", [mro.call("SUB"), mro.call("C", binds={"x": mro.ref("SUB", "ns")})],
+                                      {"r": mro.ref("C", "r")})], "TOP", {}, filetypes=("txt",))
+        q["row"] = {"kind": "ref-through-pipeline", "id": "sub%d" % i, "s": x1["s"], "t": x2["t"], "via": x1["t"], "path": []}
+        progs.append(q)
     corpus = shapes.catalogue() + [gen.gen_program(s) for s in range(40 if tier == "quick" else 300)]
     allp = progs + corpus
     sem, semres = psrun.semantics(allp)
